@@ -251,6 +251,29 @@ func (kr *kindRules) scan(w *World, f *ssa.Function) {
 				}
 				st, d := judgeLayout(e, want.Elem.Str)
 				kr.add("KIND-LAYOUT", f, sub, pos, st, "elements of the returned list: "+d)
+			case want.Seq != nil:
+				// positional numeric slice
+				if got == nil || got.Seq == nil || len(got.Seq) != len(want.Seq) {
+					kr.add("KIND-LAYOUT", f, sub, pos, Undecided, "positions of the returned slice could not be inferred ("+got.String()+")")
+					break
+				}
+				st, d := Discharged, "positions "+got.String()
+				for i := range want.Seq {
+					wk, _ := want.Seq[i].Scalar.single()
+					var gs KindSet
+					if got.Seq[i] != nil {
+						gs = got.Seq[i].Scalar
+					}
+					bad, known, why := judge(gs, wk)
+					if bad {
+						st, d = Violated, fmt.Sprintf("position %d %s", i, why)
+						break
+					}
+					if !known {
+						st, d = Undecided, fmt.Sprintf("position %d has no inferred kind", i)
+					}
+				}
+				kr.add("KIND-LAYOUT", f, sub, pos, st, "returned slice: "+d)
 			}
 		}
 	}
